@@ -333,6 +333,12 @@ fn cmd_ipm(args: &Args) {
         if args.num("settings", 1) != 0 {
             p.settings = gen::random_settings(&mut rng, p.is_symmetric());
         }
+        if family == "gate" {
+            if !p.settings.is_object() { p.settings = json!({}); }
+            let g = [1.0, 1e3, 1e-2][rng.gen_range(0..3)];
+            p.settings["tol_ktratio"] = json!(g);
+            p.settings["reduced_tol_ktratio"] = json!(g);
+        }
         if capture {
             p.tag.push_str("+print");
         }
@@ -426,6 +432,13 @@ pub fn gen_family(rng: &mut StdRng, family: &str, nmax: usize) -> problem::Probl
             o.scale_exp = rng.gen_range(2..=6) as f64;
             if rng.gen::<f64>() < 0.5 { gen::planted_feasible(rng, &o) }
             else if rng.gen::<f64>() < 0.5 { gen::planted_pinf(rng, &o) } else { gen::planted_dinf(rng, &o) }
+        }
+        "gate" => {
+            // infeasible, badly scaled (rows and columns spread over up to 8 decades); run with the kappa/tau gate wide open
+            // (set by the caller), so that the run stops as soon as the certificate residual test itself passes
+            o.bad_scaling = 1.0;
+            o.scale_exp = rng.gen_range(3..=8) as f64;
+            if rng.gen::<bool>() { gen::planted_pinf(rng, &o) } else { gen::planted_dinf(rng, &o) }
         }
         "pinf" => gen::planted_pinf(rng, &o),
         "dinf" => gen::planted_dinf(rng, &o),
